@@ -1790,13 +1790,14 @@ class SSHOpenSSHCertificateV01(SSHOpenSSHCertificate):
         ('source-address',          SSHOpenSSHCertificate._encode_source_addr)
     )
 
+    # Extensions must be encoded in lexical order of their names
     _user_extension_encoders = (
+        ('no-touch-required',       SSHOpenSSHCertificate._encode_bool),
         ('permit-X11-forwarding',   SSHOpenSSHCertificate._encode_bool),
         ('permit-agent-forwarding', SSHOpenSSHCertificate._encode_bool),
         ('permit-port-forwarding',  SSHOpenSSHCertificate._encode_bool),
         ('permit-pty',              SSHOpenSSHCertificate._encode_bool),
-        ('permit-user-rc',          SSHOpenSSHCertificate._encode_bool),
-        ('no-touch-required',       SSHOpenSSHCertificate._encode_bool)
+        ('permit-user-rc',          SSHOpenSSHCertificate._encode_bool)
     )
 
     _user_option_decoders = {
